@@ -1,15 +1,35 @@
 package main
 
 import (
+	"flag"
 	"fmt"
-	"golang.org/x/tools/go/packages"
+	"os"
+
+	"verif/internal/check"
 )
 
 func main() {
-	cfg := &packages.Config{Mode: packages.NeedName | packages.NeedFiles | packages.NeedSyntax | packages.NeedTypes | packages.NeedTypesInfo | packages.NeedImports | packages.NeedDeps, Dir: "/repo", BuildFlags: []string{"-tags=verif"}}
-	pkgs, err := packages.Load(cfg, "./...")
-	fmt.Println(len(pkgs), err)
-	for _, p := range pkgs {
-		fmt.Println(p.PkgPath, len(p.Syntax), p.Errors)
-	}
+	var cfg check.Config
+	flag.StringVar(&cfg.Repo, "repo", envOr("VERIF_REPO", "/repo"), "repository root")
+	flag.StringVar(&cfg.Prop, "prop", "", "property id (C01..C20); empty = all functions under contract")
+	flag.StringVar(&cfg.Tier, "tier", envOr("VERIF_TIER", "quick"), "quick|thorough")
+	flag.StringVar(&cfg.Only, "func", "", "only functions whose name contains this substring")
+	flag.StringVar(&cfg.Evidence, "evidence", "", "evidence file to write")
+	flag.StringVar(&cfg.WorkDir, "work", "", "directory for SMT files (default: /verif/work/<prop>)")
+	flag.IntVar(&cfg.Timeout, "timeout", 0, "per-obligation solver timeout in seconds (default 10 quick / 60 thorough)")
+	flag.IntVar(&cfg.Workers, "j", 0, "parallel obligations")
+	flag.BoolVar(&cfg.Verbose, "v", false, "verbose")
+	flag.BoolVar(&cfg.List, "list", false, "list obligations without solving")
+	flag.StringVar(&cfg.Root, "root", envOr("VERIF_ROOT", "/verif"), "verification root (/verif)")
+	flag.Parse()
+	os.Exit(check.Run(cfg))
 }
+
+func envOr(k, d string) string {
+	if v := os.Getenv(k); v != "" {
+		return v
+	}
+	return d
+}
+
+var _ = fmt.Sprint
